@@ -13,7 +13,8 @@ from vlib import *
 
 PROPS = ['Props/Properties_C24.v']
 # absolute tolerances for inputs scaled to O(1) (|sigma| in [0.5,2], |b| <= 1, n <= 12); measured maxima go into the evidence
-# (measured on the unchanged tree over several seeds: all residuals <= 1.2e-14 in double and <= 5e-6 in float, i.e. about 100 x below)
+# (measured on the unchanged tree over several seeds and a thorough run: residuals <= 1e-13 in double and <= 1.1e-5 in float, i.e. >= 18 x below;
+# certificates on the solution vector x use tol / sigma_min because x = A^+ b is amplified by 1/sigma_min, up to 50 for the nearly singular inputs)
 TOL = {'d': 2e-12, 'f': 2e-4, 'z': 2e-12, 'c': 2e-4}
 RCOND = {'d': 1e-8, 'f': 1e-4, 'z': 1e-8, 'c': 1e-4}
 def base(p): return 'd' if p in ('d', 'z') else 'f'
@@ -200,6 +201,8 @@ def certificate(ctx, exe, drv, rounds, maxdim):
             prob(ix, 'qtz-complex-solve' if (kind == 'QTZ' and cx and 'unm' in out) else 'exception', out[:200]); continue
         if kind == 'SVD':
             m, n, rank = me['m'], me['n'], me['rank']; k = min(m, n)
+            # certificates on the solution x divide by the smallest non-zero singular value: their tolerance grows with 1/sigma_min
+            tolx = tol * max([1.0] + [1.0 / v for v in me['sig']]); TX = hexf(tolx)
             A = unflat(me['A'], m, n, cx); b = unvflat(me['b'], m, cx)
             s = sec_vec(secs[0], False); U = sec_mat(secs[1], cx); Vt = sec_mat(secs[2], cx); x = sec_vec(secs[3], cx)
             ranks = [int(t) for t in head[:3]]
@@ -216,9 +219,9 @@ def certificate(ctx, exe, drv, rounds, maxdim):
             C.add('ORTH %d %s %s' % (dims(Vt)[0], T, H(R(Vt))), ix, 'orth-Vt', tol=tol)
             if not cx:
                 C.add('RECON %d %d %d %s %s %s %s %s' % (m, n, k, T, H(R(A)), H(R(U)), H(s), H(R(Vt))), ix, 'recon', tol=tol)
-                C.add('NULLORTH %d %d %s %s %s' % (n, rank, T, H(R(Vt)), H(RV(x))), ix, 'svd-x-nullorth', tol=tol)
+                C.add('NULLORTH %d %d %s %s %s' % (n, rank, TX, H(R(Vt)), H(RV(x))), ix, 'svd-x-nullorth', tol=tolx)
                 if not me.get('zero'):
-                    C.add('PINV %d %d %d %s %s %s %s %s %s %s' % (m, n, k, hexf(rc * s[0]), T, H(R(U)), H(s), H(R(Vt)), H(RV(b)), H(RV(x))), ix, 'pinv-vs-solve', tol=tol)
+                    C.add('PINV %d %d %d %s %s %s %s %s %s %s' % (m, n, k, hexf(rc * s[0]), TX, H(R(U)), H(s), H(R(Vt)), H(RV(b)), H(RV(x))), ix, 'pinv-vs-solve', tol=tolx)
             else:
                 S = [[complex(s[i] if i == j and i < k else 0.0, 0) for j in range(n)] for i in range(m)]
                 C.add('RECONS %d %d %s %s %s %s %s' % (2 * m, 2 * n, T, H(R(A)), H(R(U)), H(R(S)), H(R(Vt))), ix, 'recon', tol=tol)
@@ -240,7 +243,8 @@ def certificate(ctx, exe, drv, rounds, maxdim):
             dm, dn = dims(A)
             C.add('NORMAL %d %d %s %s %s %s' % (dm, dn, T, H(R(A)), H(RV(x)), H(RV(b))), ix, 'qtz-x-normal', tol=tol)
             sv = svd_of.get((p, tuple(me['A'])))
-            if sv and not cx: C.add('NULLORTH %d %d %s %s %s' % (n, rank, T, H(R(sv[0])), H(RV(x))), ix, 'qtz-x-nullorth', tol=tol)
+            tolx = tol * max([1.0] + [1.0 / v for v in me['sig']])
+            if sv and not cx: C.add('NULLORTH %d %d %s %s %s' % (n, rank, hexf(tolx), H(R(sv[0])), H(RV(x))), ix, 'qtz-x-nullorth', tol=tolx)
             # matrix right-hand side (b, 2b): columns x and 2x
             d0 = max([abs(X[i][0] - x[i]) for i in range(n)] + [0.0]); d1 = max([abs(X[i][1] - 2 * x[i]) for i in range(n)] + [0.0])
             if max(d0, d1) > 10 * tol: prob(ix, 'qtz-matrix-rhs', 'matrix solve differs from vector solve by %g' % max(d0, d1))
